@@ -170,5 +170,15 @@ func specs() []*spec {
 			Model:          []string{"tracker, IPFS connector, monitor, informer behind the target (recording)", "specification table of peer-to-peer vs local-only endpoints written from the statement (harness/clustersim/c07.go)"},
 			Assumptions:    []string{"an endpoint present in the code but absent from the specification table stops the check with exit 2 (specification incomplete)", "a replica that some trusted replica trusts is vouched for: its updates are re-published by that replica, so the pubsub clause is judged only when nobody ever trusted the publisher"},
 		},
+		{
+			ID: "C14", Harness: "raftsim", Level: "exploration",
+			Batch: 1, QuickSecs: 45, ThoroughSecs: 600, PlanTimeoutS: 120,
+			DetSamples: 8, DetThreshold: 0.9,
+			RequiredProbes: []string{"offline_state_checked", "exports", "started_on_import", "import_over_existing_state", "rotations_checked", "peerstore_round_trips", "malformed_peerstore_lines"},
+			Rule:           "plan = a pinset built by 1-12 generated LogPin/LogUnpin calls on a real single-peer Raft (all pin fields except origins), graceful stop (snapshot on shutdown), OfflineState, JSON export through the real StateManager, import into another base directory that may already hold a different pinset, a peer started on the imported snapshot; then 1-5 CleanupRaft calls with backups_rotate 1-6, 0..N pre-existing backups and 0-2 further writes before each; then a peerstore save/load round trip with 1-5 peers (ip and dns addresses, several per peer, priority order) and malformed lines mixed into the file. Non-trivial = >=1 operation; distinct = distinct canonical trace digest.",
+			Real:           []string{"cmdutils StateManager (exportState/importState)", "consensus/raft SnapshotSave, OfflineState, LastStateRaw, CleanupRaft, dataBackupHelper, snapshot on shutdown", "state/dsstate Marshal/Unmarshal, api pin codecs (protobuf, JSON)", "pstoremgr SavePeerstore/LoadPeerstore/ImportPeers/PeerInfos", "hashicorp/raft + BoltDB + file snapshot store on tmpfs"},
+			Model:          []string{"directory model of raft / raft.old.N", "reference pinset (fold of the applied writes)"},
+			Assumptions:    []string{"pins with origins are not used here (known finding of C01)", "pre-existing backups are a contiguous set of at most N folders", "only folders that hold a snapshot are cleaned (an empty data folder is simply removed)"},
+		},
 	}
 }
